@@ -13,6 +13,13 @@ import (
 
 const poolKeys = 6
 
+// Known finding: PolicyAfter(time.Unix(t, 0)) with t above maxSafeLock wraps inside time.Unix
+// (seconds + 62135596800 overflows int64) and is then satisfied at every realistic median time.
+const (
+	keyAfterOverflow = "C14/after-time-overflow"
+	maxSafeLock      = math.MaxInt64 - 62135596800
+)
+
 type treeGen struct {
 	t          *rapid.T
 	H          uint64
@@ -53,6 +60,15 @@ func (g *treeGen) above(reveal bool) Node {
 }
 
 func (g *treeGen) after(reveal bool) Node {
+	if rapid.IntRange(0, 29).Draw(g.t, "afterExtreme") == 0 {
+		// locks at the top of the int64 range: time.Unix wraps above maxSafeLock (known finding)
+		v := rapid.SampledFrom([]int64{maxSafeLock, maxSafeLock - 1, maxSafeLock + 1, math.MaxInt64, math.MaxInt64 - 1, 1 << 62, math.MinInt64, math.MinInt64 + 1}).Draw(g.t, "afterExtremeValue")
+		if v > maxSafeLock && stats.KnownOpen(keyAfterOverflow) {
+			stats.G().Excluded(keyAfterOverflow)
+			v = maxSafeLock
+		}
+		return Node{K: "after", T: v}
+	}
 	c := rapid.IntRange(0, 9).Draw(g.t, "afterKind")
 	if g.sat && reveal && c < 8 {
 		c = c % 2 // holds
@@ -95,7 +111,14 @@ func (g *treeGen) leaf(reveal bool) Node {
 }
 
 func (g *treeGen) node(depth int, reveal bool) Node {
-	if depth >= g.maxDepth || g.budget <= 0 || rapid.IntRange(0, 9).Draw(g.t, "isLeaf") < 4 {
+	leafOdds := 5 // out of 10
+	switch depth {
+	case 0:
+		leafOdds = 1
+	case 1:
+		leafOdds = 3
+	}
+	if depth >= g.maxDepth || g.budget <= 0 || rapid.IntRange(0, 9).Draw(g.t, "isLeaf") < leafOdds {
 		return g.leaf(reveal)
 	}
 	g.budget--
@@ -393,7 +416,7 @@ func drawRandom(t *rapid.T) Case {
 			c.Sigs[i].W = c.SH
 		}
 		mutateWitness(t, &c)
-		c.Tag = "uc-" + c.Tag
+		c.Gen = "uc"
 		return c
 	}
 	g := &treeGen{t: t, H: c.H, T: c.T, sat: mode == "sat"}
@@ -405,6 +428,7 @@ func drawRandom(t *rapid.T) Case {
 	c.Sigs, c.Pres = exactWitness(&c.P, c.SH)
 	mutateWitness(t, &c)
 	c.Alt = drawPaths(t, &c.P, rapid.IntRange(0, 5).Draw(t, "altPaths"))
+	c.Gen = mode
 	return c
 }
 
@@ -573,7 +597,7 @@ func drawLimits(t *rapid.T) Case {
 	} else {
 		c.Tag = "exact"
 	}
-	c.Tag = "limits-" + kind + "-" + c.Tag
+	c.Gen = "limits-" + kind
 	return c
 }
 
